@@ -724,6 +724,9 @@ func resolvePlannedField(eCtx *executionContext, parentType *Object, source inte
 	var returnType Output
 	defer func() {
 		if r := recover(); r != nil {
+			// a failed field contributes null, never the value the resolver
+			// may have returned together with its error
+			result = nil
 			handleFieldError(r, FieldASTsToNodeASTs(fp.fieldASTs), path, returnType, eCtx)
 			ok = true
 		}
